@@ -851,8 +851,18 @@ func runC14(r *Report) {
 			r.Ob("R-C14-3", 0, got != "persistent" && got != "shared-persistent", fmt.Sprintf("runtime-only family %q classifies as %s (must never be persisted)", pre, got), hybPkg, "runtime-only:"+pre)
 		}
 	}
-	prec := hybridPrecedence(r.P)
-	r.Ob("R-C14-3", 0, strings.Join(prec, ",") == "isSharedPersistent,isShared,isPersistent", "getCategory precedence: "+strings.Join(prec, " > "), "Storage.getCategory", "precedence")
+	// getCategory is read as an ordered list of (predicate over a prefix table -> category) steps; every
+	// step must be evaluable, and the obligations above classify every listed prefix through that list
+	decs := hybridDecisions(r.P)
+	var prec []string
+	allKnown := len(decs) >= 3
+	for _, d := range decs {
+		prec = append(prec, fmt.Sprintf("%s[%d prefixes]->%s", d.pred, len(d.table), d.cat))
+		if !d.known {
+			allKnown = false
+		}
+	}
+	r.Ob("R-C14-3", 0, allKnown, "every step of getCategory is a predicate over a readable prefix table with a constant category: "+strings.Join(prec, " > "), "Storage.getCategory", "precedence")
 
 	// ---- R-C14-4 list read-modify-write ----------------------------------------------------------
 	for _, name := range []string{"Storage.AppendToList", "Storage.RemoveFromList"} {
